@@ -2,6 +2,7 @@ import Agd.Tie.TrC20
 import Agd.Lemmas.Config
 import Agd.Lemmas.ConfigShape
 import Agd.Tie.C20
+import Agd.Model.ConfigBackend
 /-!
 # C20 — a configuration that passes validation cannot make request handling fail
 
@@ -644,6 +645,91 @@ example : Documented { tls := some { keys := [3, 2] }, srvs := [.dns, .quic] } :
   ⟨rfl, by simp, by decide, fun t h => by cases h; exact ⟨by decide, rfl⟩⟩
 
 end Shape
+
+/-! ## Backend stage (round 6): billing statistics, profile database, profile rate limiters -/
+namespace Backend
+
+/-- The refresh workers of the backend-facing steps panic exactly when one of the three intervals they
+are given is not positive (`time.NewTicker`). -/
+theorem start_ok_iff (w : Wiring) : start w = .ok () ↔ 0 < w.billIvl ∧ 0 < w.profIvl ∧ 0 < w.allowIvl := by
+  unfold start ticker
+  by_cases h1 : w.billIvl ≤ 0 <;> by_cases h2 : w.profIvl ≤ 0 <;> by_cases h3 : w.allowIvl ≤ 0 <;>
+    simp [h1, h2, h3, bind, Except.bind] <;> omega
+
+/-- **accepted_backend_starts.** With an accepted configuration none of `initBillStat`,
+`initProfileDB`, `initRateLimiter` panics when it creates its refresh worker. -/
+theorem accepted_backend_starts (c : Config) (h : validate false c = []) : start (wire c) = .ok () := by
+  have h1 := accepted_meets c h .beBill
+  have h2 := accepted_meets c h .beRefresh
+  have h3 := accepted_meets c h .rlAlRefresh
+  simp [violates] at h1 h2 h3
+  exact (start_ok_iff _).2 ⟨h1, h2, h3⟩
+
+/-- The division in `CountResponses` is the only way the probe fails, and it does not look at the
+client subnets or at the limit first. -/
+theorem probe_panics_iff (est : Int) (applies : Bool) (rps len : Nat) :
+    probe est applies rps len = .error .divZero ↔ est = 0 := by
+  unfold probe; by_cases h : est = 0 <;> cases applies <;> simp [h]
+
+/-- **accepted_profile_query_served.** With an accepted configuration the backend-facing parts start
+and the request of a profile is handled without a panic whether its limiter was built from the
+backend's answer or restored from the cache file; a client the custom limit does not cover is left to
+the global limiter; for a covered client the first request of a second passes whenever the limit is
+at least one per second, and the next one is dropped exactly when the response, weighed with the
+configured estimate, has used the second up. -/
+theorem accepted_profile_query_served (c : Config) (h : validate false c = []) (src : Source) (applies : Bool)
+    (rps len : Nat) :
+    run c src applies rps len =
+      .ok (if applies then (event rps 1, event rps (2 + len / c.est.toNat)) else (.global, .global)) := by
+  have he := accepted_meets c h .rlEst
+  simp [violates] at he
+  have e0 : c.est ≠ 0 := by omega
+  unfold run; rw [accepted_backend_starts c h]
+  cases src <;> cases applies <;> simp [probe, estOf, wire, e0, bind, Except.bind]
+
+theorem first_query_passes (rps : Nat) (h : 1 ≤ rps) : event rps 1 = .pass := by
+  unfold event; simp; omega
+
+theorem second_query_drop_iff (rps len est : Nat) : event rps (2 + len / est) = .drop ↔ rps < 2 + len / est := by
+  unfold event; by_cases h : 2 + len / est > rps <;> simp [h] <;> omega
+
+/-- **unwired_estimate_panics.** Whatever else the builder does: a consumer that is not given the
+estimate (the zero value of the field) panics on the first response of every profile it has built —
+also for clients outside the custom limit. -/
+theorem unwired_estimate_panics (w : Wiring) (src : Source) (h : estOf w src = 0) (applies : Bool) (rps len : Nat) :
+    probe (estOf w src) applies rps len = .error .divZero :=
+  (probe_panics_iff _ _ _ _).2 h
+
+/-- **cache_unwired_counterexample.** Why both consumers are tied to the source: a builder that gives
+the estimate of the distributed (accepted) file to the profile storage only starts, serves every
+profile that comes from the backend, and panics for every profile restored from the cache file after
+a restart within `full_refresh_interval`. -/
+theorem cache_unwired_counterexample :
+    let w : Wiring := { wire dist with cacheEst := 0 }
+    validate false dist = [] ∧ start w = .ok () ∧
+      (∀ a r l, probe (estOf w .backend) a r l ≠ .error .divZero) ∧
+      restartSource w true 1000000000 = .cache ∧
+      (∀ a r l, probe (estOf w .cache) a r l = .error .divZero) := by
+  refine ⟨by decide, by decide, ?_, by decide, ?_⟩
+  · intro a r l hp; have := (probe_panics_iff _ a r l).1 hp; revert this; decide
+  · intro a r l; exact (probe_panics_iff _ a r l).2 (by decide)
+
+example : run dist .cache true 5 709 = .ok (.pass, .pass) := by decide
+example : run dist .backend true 2 3009 = .ok (.pass, .drop) := by decide
+example : run { dist with est := 1 } .cache false 60 5005 = .ok (.global, .global) := by decide
+example : run { dist with beBill := 0 } .cache true 5 709 = .error (.ticker .billStat) := by decide
+example : validate false { dist with est := 1, beRefresh := 1, beBill := 1, alRefresh := 1, beTimeout := 0 } = [] := by decide
+
+end Backend
+
+#print axioms Backend.start_ok_iff
+#print axioms Backend.accepted_backend_starts
+#print axioms Backend.probe_panics_iff
+#print axioms Backend.accepted_profile_query_served
+#print axioms Backend.first_query_passes
+#print axioms Backend.second_query_drop_iff
+#print axioms Backend.unwired_estimate_panics
+#print axioms Backend.cache_unwired_counterexample
 
 #print axioms Shape.shape_accepts_iff
 #print axioms Shape.shape_reject_names_group
